@@ -110,9 +110,9 @@ static bool url_allowed(unsigned char c, bool component)
 
 static void op_url(const vf::Op& o)
 {
-	const std::string& s = o.str(0); // NUL-free
+	const std::string& s = o.str(0); // any bytes, NUL included (a String built with String(ptr, n) holds them)
 	bool component = o.i(0) != 0;
-	String in(s.c_str());
+	String in(s.data(), (int)s.size());
 	String e = Url::encode(in, component);
 	std::string es = S(e);
 	VF_CHECK((int)strlen(*e) == e.length(), "Url::encode length/terminator");
@@ -131,7 +131,7 @@ static void op_url(const vf::Op& o)
 	// unreserved characters are never escaped
 	String d = Url::decode(e);
 	VF_CHECK(S(d) == s, "Url::decode(Url::encode(s)) != s for ", vf::show(s), " mode ", component, " enc ", vf::show(es), " got ", vf::show(S(d)));
-	VF_CHECK((int)strlen(*d) == d.length(), "Url::decode length/terminator");
+	VF_CHECK(d.length() == (int)s.size() && (*d)[d.length()] == 0, "Url::decode length/terminator");
 }
 
 static void op_query(const vf::Case& c)
@@ -141,14 +141,20 @@ static void op_query(const vf::Case& c)
 	for (auto& o : c.ops) {
 		if (o.name != "kv" || o.str(0).empty())
 			continue;
-		d[String(o.str(0).c_str())] = String(o.str(1).c_str());
-		m[o.str(0)] = o.str(1);
+		// values may hold any byte; keys are kept NUL-free: Dic orders its keys as C strings, so two keys that differ only behind a
+		// NUL are ONE key to the dictionary itself (Map/String semantics, not this property's subject)
+		std::string key = o.str(0);
+		for (auto& ch : key)
+			if (ch == 0)
+				ch = 'N';
+		d[String(key.data(), (int)key.size())] = String(o.str(1).data(), (int)o.str(1).size());
+		m[key] = o.str(1);
 	}
 	String q = Url::params(d);
 	Dic<> back = Url::parseQuery(q);
 	VF_CHECK(back.length() == (int)m.size(), "parseQuery(params(d)) has ", back.length(), " entries, want ", m.size(), " query ", vf::show(S(q)));
 	for (auto& kv : m) {
-		String k(kv.first.c_str());
+		String k(kv.first.data(), (int)kv.first.size());
 		VF_CHECK(back.has(k), "key lost: ", vf::show(kv.first), " query ", vf::show(S(q)));
 		VF_CHECK(S(back[k]) == kv.second, "value changed for key ", vf::show(kv.first), ": got ", vf::show(S(back[k])), " want ", vf::show(kv.second));
 	}
@@ -162,6 +168,13 @@ static void op_sha1(const vf::Op& o)
 	VF_CHECK(std::string((const char*)(const byte*)h1, 20) == want, "SHA1::hash(ptr,len) len=", m.size(), " got ", ref::hex(std::string((const char*)(const byte*)h1, 20)), " want ", ref::hex(want));
 	SHA1::Hash h2 = SHA1::hash(BA(m));
 	VF_CHECK(std::string((const char*)(const byte*)h2, 20) == want, "SHA1::hash(ByteArray) len=", m.size());
+	{
+		// the fixed-size-array overloads of the encoders, as used on a digest (WebSocket accept keys are made this way)
+		String hx = encodeHex(h2);
+		VF_CHECK(S(hx) == ref::hex(want), "encodeHex(SHA1::Hash) = ", vf::show(S(hx)), " want ", ref::hex(want));
+		String b64 = encodeBase64(h2);
+		VF_CHECK(S(b64) == ref::base64(want), "encodeBase64(SHA1::Hash) = ", vf::show(S(b64)), " want ", ref::base64(want));
+	}
 	{
 		// a String may hold any byte (built with String(ptr, n)): its overload must hash all of them
 		SHA1::Hash h5 = SHA1::hash(String(m.data(), (int)m.size()));
@@ -486,9 +499,9 @@ void vf_search(const vf::Args& a)
 		    }))
 			return;
 	}();
-	// (4) percent-encoding round trip, both modes, NUL-free bytes
+	// (4) percent-encoding round trip, both modes, all byte values
 	[&]() {
-		auto g = gen::map(gen::pair(gen::container<std::vector<int>>(gen::oneOf(vf::irange<int>(1, 255), gen::elementOf(std::vector<int>{'%', '+', ' ', '&', '=', '/', '?', '#', '~', 0x7f, 0x80, 0xff, '%', '2', 'e'}))),
+		auto g = gen::map(gen::pair(gen::container<std::vector<int>>(gen::oneOf(vf::irange<int>(0, 255), gen::elementOf(std::vector<int>{'%', '+', ' ', '&', '=', '/', '?', '#', '~', 0x7f, 0x80, 0xff, '%', '2', 'e', 0}))),
 		                            vf::irange<int>(0, 1)),
 		                  [](const std::pair<std::vector<int>, int>& p) {
 			                  vf::Op o("url");
@@ -512,11 +525,27 @@ void vf_search(const vf::Args& a)
 			    vf::stats().cls(c.ops[0].i(0) ? "url.component" : "url.uri");
 		    }))
 			return;
+		// every length 0..1100 (internal buffers of any size are crossed): text that needs no escape at all, text that is
+		// escaped throughout, and random bytes
+		{
+			uint64_t m = 0;
+			for (int len = 0; len <= 1100; len++)
+				for (int kind = 0; kind < 3; kind++) {
+					std::string t = kind == 0 ? rng.bytes(len, 'a', 'z') : kind == 1 ? rng.bytes(len, 0x80, 0xff) : rng.bytes(len);
+					vf::Op o("url", {(long long)(len + kind) % 2}, {t});
+					if (!run1("url", o))
+						return;
+					m++;
+					if (kind)
+						vf::stats().nt(vf::fnv(t, kind));
+				}
+			vf::stats().part("url.every_length_0..1100", m, false);
+		}
 		// every single byte and every pair from a hot alphabet, both modes
 		uint64_t n = 0;
-		std::string hot = "%+ &=/?#a0~\x7f\x80\xff";
+		std::string hot("%+ &=/?#a0~\x7f\x80\xff\0", 15);
 		for (int mode = 0; mode < 2; mode++) {
-			for (int b = 1; b < 256; b++) {
+			for (int b = 0; b < 256; b++) {
 				vf::Op o("url", {mode}, {std::string(1, (char)b)});
 				if (!run1("url", o))
 					return;
@@ -536,7 +565,7 @@ void vf_search(const vf::Args& a)
 	}();
 	// (5) query dictionaries
 	[&]() {
-		auto str = gen::map(gen::container<std::vector<int>>(gen::oneOf(vf::irange<int>(1, 255), gen::elementOf(std::vector<int>{'%', '+', ' ', '&', '=', 0xc3, 0xa9}))), [](const std::vector<int>& v) {
+		auto str = gen::map(gen::container<std::vector<int>>(gen::oneOf(vf::irange<int>(0, 255), gen::elementOf(std::vector<int>{'%', '+', ' ', '&', '=', 0xc3, 0xa9, 0}))), [](const std::vector<int>& v) {
 			std::string s;
 			for (int x : v)
 				s += (char)x;
